@@ -497,7 +497,7 @@ type family struct {
 	eval  func()   // oracle + protocol lines, to be called once all procs have run
 }
 
-func selected(run *hx.Run, idx int) bool { return run.Only < 0 || run.Only == idx }
+func selected(run *hx.Run, idx int) bool { return (run.Only < 0 || run.Only == idx) && partEnabled() }
 
 // phasePrepare lays out the selected cases (indices startIdx, startIdx+1, …) and returns their
 // processes and their evaluation.
